@@ -5,6 +5,14 @@ import glob, os, subprocess, sys
 VERIF = os.path.dirname(os.path.dirname(os.path.abspath(__file__)))
 pats = sys.argv[1:]
 bad = 0
+limits = {}
+lp = os.path.join(VERIF, 'refactors', 'KNOWN_LIMITS.txt')
+if os.path.exists(lp):
+    for line in open(lp):
+        if line.strip() and not line.startswith('#'):
+            k, _, why = line.strip().partition(' ')
+            limits[k] = why
+known = 0
 for f in sorted(glob.glob(os.path.join(VERIF, 'refactors', '*.diff'))):
     name = os.path.basename(f)
     if pats and not any(p in name for p in pats):
@@ -12,9 +20,14 @@ for f in sorted(glob.glob(os.path.join(VERIF, 'refactors', '*.diff'))):
     r = subprocess.run([sys.executable, os.path.join(VERIF, 'tools', 'try_patch.py'), f], stdout=subprocess.PIPE, stderr=subprocess.STDOUT, text=True)
     lines = [l for l in r.stdout.strip().splitlines()]
     status = 'SILENT' if r.returncode == 0 else 'ALARM'
-    if r.returncode:
+    if r.returncode and name in limits:
+        status = 'KNOWN-LIMIT'
+        known += 1
+    elif r.returncode:
         bad += 1
+    elif name in limits:
+        status = 'SILENT (listed as a known limit: remove it from KNOWN_LIMITS.txt)' 
     print('%-7s %s' % (status, name))
     for l in lines[:-1][:6]:
         print('        ' + l[:260])
-print('refactorings that raised an alarm: %d' % bad)
+print('refactorings that raised an alarm: %d (+ %d listed in refactors/KNOWN_LIMITS.txt)' % (bad, known))
